@@ -872,10 +872,10 @@ func (in *interp) emitRecord(m *omap) {
 // ---------------------------------------------------------------- program driver
 
 type outcome struct {
-	tags   []string
-	items  []item
-	fatal  string
-	uncon  string
+	tags    []string
+	items   []item
+	fatal   string
+	uncon   string
 	nonterm bool
 }
 
